@@ -223,7 +223,7 @@ def sweep():
 
 def run(ctx):
     common.build("build/hooks/sig_shim")
-    res = hyp.run_property(ctx, scenarios(), check, ctx.pick(30000, 1500000))
+    res = hyp.run_property(ctx, scenarios(), check, ctx.pick(30000, 400000))
     for sc in sweep():
         v = check(sc, res)
         if v:
